@@ -44,8 +44,8 @@ var points = []string{"launching", "configuring", "configured", "starting", "run
 // ---- input ---------------------------------------------------------------------------------
 
 type action struct {
-	kind string // env | kill | term | drop | destroy | stubborn
-	arg  string // env: point; drop: clean|abrupt; destroy: env index; stubborn: silent|killing
+	kind string // env | kill | term | drop | destroy | stubborn | park | unpark
+	arg  string // env: point; drop: clean|abrupt; destroy: env index; stubborn: silent|killing; park: "<env index> destroy|cleanup"
 }
 
 // scenario = (K KV0 (ACTION…))
@@ -68,6 +68,7 @@ func parseScenario(in string) (*scenario, error) {
 		return nil, fmt.Errorf("scenario: K out of range")
 	}
 	envs := 0
+	parked := false
 	var pts []string
 	for _, a := range n.At(2).List {
 		if !a.IsList || a.Len() < 1 {
@@ -76,6 +77,9 @@ func parseScenario(in string) (*scenario, error) {
 		act := action{kind: a.At(0).Str()}
 		if a.Len() > 1 {
 			act.arg = a.At(1).Str()
+		}
+		for j := 2; j < a.Len(); j++ {
+			act.arg += " " + a.At(j).Str()
 		}
 		switch act.kind {
 		case "env":
@@ -88,6 +92,9 @@ func parseScenario(in string) (*scenario, error) {
 			}
 			envs++
 			pts = append(pts, act.arg)
+			if parked && act.arg != "configured" && act.arg != "running" && act.arg != "standby" {
+				return nil, fmt.Errorf("scenario: only settled environments while a teardown is parked")
+			}
 		case "kill", "term":
 		case "drop":
 			if act.arg != "clean" && act.arg != "abrupt" {
@@ -99,6 +106,28 @@ func parseScenario(in string) (*scenario, error) {
 			if act.arg != "silent" && act.arg != "killing" {
 				return nil, fmt.Errorf("scenario: bad stubborn mode")
 			}
+		case "park":
+			// (park I destroy|cleanup): environment I is torn down — DestroyEnvironment, or DestroyEnvironment keeping the
+			// tasks followed by CleanupTasks — while the master holds the answers to the KILL calls back: doKillTasks is
+			// between its two roster writes until (unpark). Only settled environments created meanwhile.
+			var i int
+			var via string
+			if _, e := fmt.Sscanf(act.arg, "%d %s", &i, &via); e != nil || i < 0 || i >= envs || (via != "destroy" && via != "cleanup") {
+				return nil, fmt.Errorf("scenario: bad (park I destroy|cleanup)")
+			}
+			if p := pts[i]; p != "configured" && p != "running" && p != "standby" {
+				return nil, fmt.Errorf("scenario: park of an environment at point %s", p)
+			}
+			if parked {
+				return nil, fmt.Errorf("scenario: nested park")
+			}
+			parked = true
+			pts[i] = "destroyed"
+		case "unpark":
+			if !parked {
+				return nil, fmt.Errorf("scenario: unpark without park")
+			}
+			parked = false
 		case "destroy":
 			var i int
 			if _, e := fmt.Sscanf(act.arg, "%d", &i); e != nil || i < 0 || i >= envs {
@@ -112,7 +141,15 @@ func parseScenario(in string) (*scenario, error) {
 		default:
 			return nil, fmt.Errorf("scenario: unknown action %q", act.kind)
 		}
+		if parked && act.kind != "park" && act.kind != "env" {
+			// a quiet point needs the core to answer a barrier with a KILL call of its own, and every disturbance is
+			// bracketed by quiet points
+			return nil, fmt.Errorf("scenario: (%s) while a teardown is parked", act.kind)
+		}
 		s.acts = append(s.acts, act)
+	}
+	if parked {
+		return nil, fmt.Errorf("scenario: park without unpark")
 	}
 	if envs > 4 || len(s.acts) > 12 {
 		return nil, fmt.Errorf("scenario: too long")
@@ -131,7 +168,11 @@ func (s *scenario) String() string {
 	as := sx.L()
 	for _, a := range s.acts {
 		if a.arg != "" {
-			as.Add(sx.L(sx.A(a.kind), sx.A(a.arg)))
+			l := sx.L(sx.A(a.kind))
+			for _, f := range strings.Fields(a.arg) {
+				l.Add(sx.A(f))
+			}
+			as.Add(l)
 		} else {
 			as.Add(sx.L(sx.A(a.kind)))
 		}
@@ -195,6 +236,15 @@ type runner struct {
 	barriers int
 	life     int
 	seenEnv  map[string]bool
+	parked   *parkRec
+	parks    int
+}
+
+// a teardown whose KILL calls the master keeps in flight
+type parkRec struct {
+	e       *envRec
+	gate    string
+	pending chan error
 }
 
 func (r *runner) lastSeq() int {
@@ -279,7 +329,7 @@ func (r *runner) snapshot(phase string) error {
 	err := sim.Poll("the core's roster and environment list agree", ceiling, func() (bool, error) {
 		ctx, cancel := context.WithTimeout(context.Background(), 30*time.Second)
 		defer cancel()
-		er, err := c.GetEnvironments(ctx, &pb.GetEnvironmentsRequest{ShowAll: true})
+		er, err := c.GetEnvironments(ctx, &pb.GetEnvironmentsRequest{ShowAll: true, ShowTaskInfos: true})
 		if err != nil {
 			return false, &sim.InfraError{What: "GetEnvironments", Err: err}
 		}
@@ -290,7 +340,14 @@ func (r *runner) snapshot(phase string) error {
 		listed := map[string]bool{}
 		envs = sx.L(sx.A("envs"))
 		for _, e := range er.GetEnvironments() {
-			envs.Add(sx.L(sx.A("E:"+e.GetId()), sx.A(e.GetState())))
+			// … and what its roles hold: the environment's own view of its tasks, independent of the roster
+			row := sx.L(sx.A("E:"+e.GetId()), sx.A(e.GetState()))
+			for _, t := range e.GetTasks() {
+				if t.GetLocked() {
+					row.Add(sx.A("T:" + t.GetTaskId()))
+				}
+			}
+			envs.Add(row)
 			listed[e.GetId()] = true
 		}
 		own = sx.L(sx.A("own"), sx.A(phase))
@@ -579,6 +636,88 @@ func (r *runner) releaseGates() {
 	for _, e := range r.envs {
 		r.w.Release(e.gate)
 	}
+	for i := 1; i <= r.parks; i++ {
+		r.w.Release(fmt.Sprintf("park%d", i))
+	}
+}
+
+// park: tear environment e down with the answers to its KILL calls held back by the master. On return the
+// first KILL call has reached the master and its caller — doKillTasks, between its two roster writes — is
+// parked in it; the environment is gone from the core's list (TeardownEnvironment is complete).
+func (r *runner) park(e *envRec, via string) error {
+	if e.id == "" || e.dead {
+		return infraf("park of an environment that is not up")
+	}
+	var ids []string
+	for _, t := range r.w.Tasks() {
+		if t.EnvID == e.id && !t.Terminal {
+			ids = append(ids, t.TaskID)
+		}
+	}
+	if len(ids) == 0 {
+		return infraf("park: the environment has no live task")
+	}
+	r.parks++
+	p := &parkRec{e: e, gate: fmt.Sprintf("park%d", r.parks), pending: make(chan error, 1)}
+	r.w.Master.HoldCalls("KILL", p.gate, ids...)
+	r.mark(sx.L(sx.A("destroy"), sx.A("E:"+e.id)))
+	c := r.w.Client()
+	switch via {
+	case "destroy":
+		go func() {
+			ctx, cancel := gctx()
+			defer cancel()
+			_, err := c.DestroyEnvironment(ctx, &pb.DestroyEnvironmentRequest{Id: e.id, Force: true, AllowInRunningState: true})
+			p.pending <- err
+		}()
+	case "cleanup":
+		ctx, cancel := gctx()
+		_, err := c.DestroyEnvironment(ctx, &pb.DestroyEnvironmentRequest{Id: e.id, Force: true, AllowInRunningState: true, KeepTasks: true})
+		cancel()
+		if err != nil {
+			return &sim.InfraError{What: "DestroyEnvironment (keeping the tasks) of a settled environment failed", Err: err}
+		}
+		go func() {
+			ctx, cancel := gctx()
+			defer cancel()
+			_, err := c.CleanupTasks(ctx, &pb.CleanupTasksRequest{})
+			p.pending <- err
+		}()
+	}
+	e.dead = true
+	r.parked = p
+	return sim.Poll("a KILL call of the teardown is in flight", ceiling, func() (bool, error) {
+		if r.w.Master.Held(p.gate) >= 1 {
+			return true, nil
+		}
+		select {
+		case err := <-p.pending:
+			p.pending <- err
+			return false, infraf("the teardown returned without a KILL call reaching the master: %v", err)
+		default:
+			return false, nil
+		}
+	})
+}
+
+// unpark: the master answers the held KILL calls; the teardown runs to its end.
+func (r *runner) unpark() error {
+	p := r.parked
+	if p == nil {
+		return infraf("unpark without park")
+	}
+	r.parked = nil
+	r.w.Release(p.gate)
+	select {
+	case err := <-p.pending:
+		r.mark(sx.L(sx.A("destroyed"), sx.A("E:"+p.e.id), sx.B(err == nil)))
+		if err != nil {
+			return &sim.InfraError{What: "the parked teardown failed", Err: err}
+		}
+	case <-time.After(ceiling):
+		return infraf("the parked teardown did not return")
+	}
+	return nil
 }
 
 func (r *runner) restart(term bool) error {
@@ -689,6 +828,13 @@ func runScenario(sc *scenario, verbose bool) (string, error) {
 			err = r.drop(a.arg == "abrupt")
 		case "stubborn":
 			r.stubborn(a.arg)
+		case "park":
+			var i int
+			var via string
+			fmt.Sscanf(a.arg, "%d %s", &i, &via)
+			err = r.park(r.envs[i], via)
+		case "unpark":
+			err = r.unpark()
 		case "destroy":
 			var i int
 			fmt.Sscanf(a.arg, "%d", &i)
@@ -803,6 +949,11 @@ func (r *runner) observation() string {
 			case "own":
 				sortRows(n, 2)
 			case "envs":
+				for _, row := range n.List[1:] {
+					if row.IsList && row.Len() > 2 {
+						sortRows(row, 2)
+					}
+				}
 				sortRows(n, 1)
 			case "quiet":
 				sortRows(n, 2)
